@@ -98,6 +98,11 @@ func (p *PKI) Client(cn string, issuer *Pair, expired bool) *Pair {
 	return issue(cn, issuer, false, nb, na, false)
 }
 
+// ClientValidity issues a client certificate with the given validity period.
+func (p *PKI) ClientValidity(cn string, issuer *Pair, notBefore, notAfter time.Time) *Pair {
+	return issue(cn, issuer, false, notBefore, notAfter, false)
+}
+
 // SelfSigned issues a self-signed client certificate.
 func (p *PKI) SelfSigned(cn string) *Pair {
 	return issue(cn, nil, false, p.now.Add(-time.Hour), p.now.Add(24*time.Hour), false)
